@@ -216,8 +216,15 @@ func runDecoCase(a args, idx int, r *h.Rand, format string) {
 					}
 				}()
 			}
+			reuse := i%2 == 0 // like io.Copy / os/exec: one buffer, refilled before every Write
+			buf := make([]byte, 0, 16<<10)
 			for _, c := range streams[i].Chunks {
-				n, err := w.Write([]byte(c))
+				p := []byte(c)
+				if reuse {
+					buf = append(buf[:0], c...)
+					p = buf
+				}
+				n, err := w.Write(p)
 				if err != nil || n != len(c) {
 					short[i] = fmt.Sprintf("Write(%d bytes) returned %d, %v", len(c), n, err)
 				}
